@@ -83,7 +83,7 @@ def _shapes(lo, hi):
         ps = ", ".join("a%d" % j for j in range(n))
         lits.append("  f = func(%s%s) { return %d }" % (ps, ", r..." if n % 2 else "", n))
     body = "\n".join(lits)
-    return "done = make(chan int64)\nfor k = 0; k < 4; k++ {\n go func() {\n%s\n  done <- 1\n }()\n}\nfor k = 0; k < 4; k++ {\n <-done\n}\n1" % body
+    return "done = make(chan int64)\nfor k = 0; k < 8; k++ {\n go func() {\n%s\n  done <- 1\n }()\n}\nfor k = 0; k < 8; k++ {\n <-done\n}\n1" % body
 CONC += [_shapes(5 + 12 * k, 17 + 12 * k) for k in range(8)]
 
 
